@@ -282,6 +282,11 @@ func init() {
 		}
 		pr := run.Rule("DT-presets", "the four verification presets are literals with the flag values the property statement assumes", 20)
 		checkPresets(p, pr)
+		// the S < L admission test used by verification is decided completely (same rule as C05)
+		dts := run.Rule("DT-S", "ScMinimalVartime returns exactly 'little-endian value < L' on every consistent abstract input, false on any other length", 5000)
+		if smp := checkScMinimal(dts, cfg); smp != nil {
+			run.Sample(smp)
+		}
 	}
 }
 
